@@ -5,9 +5,9 @@ ID = 'C10'
 PKG = '.'
 HARNESS_FILES = ['pkg/frame/zz_verif_common.go', 'pkg/frame/zz_verif_dialect.go', 'pkg/frame/zz_verif_c02.go',
                  'pkg/frame/zz_verif_c05.go', 'pkg/frame/zz_verif_c06.go', 'pkg/frame/zz_verif_export.go',
-                 'pkg/frame/zz_verif_msgs.go', 'zz_verif_node.go', 'zz_verif_c10.go']
+                 'pkg/frame/zz_verif_msgs.go', 'zz_verif_node.go', 'zz_verif_c10.go', 'zz_verif_life.go']
 KERNEL_PKGS = ['.']
-ROOTS = [r'v3\.verifHarness_C10']
+ROOTS = [r'v3\.verifHarness_C10', r'v3\.verifHarness_C14_read_failure']
 ALLOW = 'bufio,io,encoding/binary,errors,bytes'
 INITS = 'io,bufio,errors,github.com/bluenviron/gomavlib/v3/pkg/message,github.com/bluenviron/gomavlib/v3/pkg/frame'
 OPTIONS = {'x25_uf': True}
@@ -20,17 +20,19 @@ def tasks(tier):
     for keyed in (0, 1):
         for chunk in ((0, 1, 7) if tier == 'quick' else (0, 1, 2, 5, 7, 12, 22, 23, 30, 45)):
             ts.append(Task('verifHarness_C10_reader', [keyed, chunk]))
+    ts += [Task('verifHarness_C14_read_failure', [busy]) for busy in (0, 1)]
     return ts
 
 
 def required_reach(tier):
-    return ['C10/R']
+    return ['C10/R', 'C14/L2']
 
 
 def bounds(tier):
     return {'stream': 'junk byte (not a marker), valid frame, complete frame with a wrong checksum (keyed link: wrong signature, then an '
                       'unsigned frame), valid frame; all header/payload bytes symbolic (valid frames kept canonical: last payload byte non-zero)',
             'segmentation': 'first transport read of size 0(all),1,7 (quick) / ten sizes (thorough)',
+            'close_event_one_schedule': 'Channel.run with reader, writer and run goroutines executed round-robin to quiescence: after a transport read failure (writer idle or stuck in the transport) exactly one close event, carrying the cause, transport closed, no goroutine left, done signalled',
             'NOT DECIDED': 'exactly one close event, close after the last frame, nothing after close, attribution under cross-channel '
                            'interleavings, losslessness under a slow consumer, concurrent writes: schedule clauses (Channel.run joins, '
                            'pushEvent racing with terminate) have no schedule variable in a single-goroutine encoding'}
